@@ -218,22 +218,30 @@ end Plugin
 section Foreach
 open Arca.Model.ForeachStep
 
-/-- Every trace the foreach provider can emit is a legal life story — with the lifecycle's transition relation widened
-    by the one undeclared transition `execute -> closed` (`foreachUndeclaredEdges`). -/
-theorem foreach_traces_legal_partial : ∀ p ∈ foreachPaths, foreachAcceptsRelaxed p.2 = true :=
+/-- FULL STRENGTH: every trace the foreach provider can emit is a legal life story against its lifecycle exactly as
+    declared (since `closed` is declared as a next stage of `execute`). -/
+theorem foreach_traces_legal : ∀ p ∈ foreachPaths, foreachAccepts p.2 = true :=
   Arca.Proofs.PluginTraces.foreach_paths_accepted
 
-/-- Against the lifecycle exactly as declared the property is FALSE: closed while waiting for the items the step goes
-    `execute -> closed` (`runOnInput` -> `closedEarly`), and `closed` is declared as a next stage of `enabling` only. -/
-theorem foreach_traces_legal_counterexample : ∃ p ∈ foreachPaths, foreachAccepts p.2 = false :=
-  ⟨("closed-waiting-execute", fpath [enterExecute, closedEarly "outputs" true]), by decide,
-   Arca.Proofs.PluginTraces.foreach_strict_rejects_closed_waiting_execute⟩
-
-/-- `execute -> closed` is the ONLY transition the foreach provider makes without it being declared -/
-theorem foreach_only_undeclared_transition :
-    ∀ p ∈ foreachPaths, ∀ e ∈ Arca.Model.PluginStep.LifecycleSpec.transitions p.2,
-      e ∈ foreachEdges ∨ e = ("execute", "closed") := by
+/-- every transition the foreach provider makes is declared -/
+theorem foreach_all_transitions_declared :
+    ∀ p ∈ foreachPaths, ∀ e ∈ Arca.Model.PluginStep.LifecycleSpec.transitions p.2, e ∈ foreachEdges := by
   decide
+
+/-- Against the OLD lifecycle table (literal copy `foreachStagesBeforeExecuteClosed`) the property was false: closed
+    while waiting for the items the step goes `execute -> closed` (`runOnInput` -> `closedEarly`), and `closed` was
+    declared as a next stage of `enabling` only. -/
+theorem foreach_traces_legal_counterexample_old_lifecycle :
+    ∃ p ∈ foreachPaths, foreachAcceptsBeforeExecuteClosed p.2 = false :=
+  ⟨("closed-waiting-execute", fpath [enterExecute, closedEarly "outputs" true]), by decide,
+   Arca.Proofs.PluginTraces.foreach_old_lifecycle_rejects_closed_waiting_execute⟩
+
+/-- the repair is exactly that one edge, with a completion dependency (an unresolvable `execute` never makes `closed`
+    unresolvable) -/
+theorem foreach_lifecycle_differs_by_execute_closed :
+    Arca.Gen.foreachStages = foreachStagesBeforeExecuteClosed.map (fun r =>
+      if r.id = "execute" then { r with next := ("closed", Arca.Model.Dep.cand) :: r.next } else r) :=
+  Arca.Proofs.PluginTraces.foreach_lifecycle_change
 
 /-- exactly one completion is reported on EVERY path of the foreach `run()` (F10b fixed in 2e2fefe) -/
 theorem foreach_exactly_one_completion :
